@@ -35,6 +35,17 @@ Oracle clauses (violation key = C01:<clause>:...):
                 flow_mod followed by a barrier request and a packet_out: what follows the flow_mod is
                 not exactly these two well-framed messages / the packet_out is not the unbuffered
                 re-send of the packet_in / they do not decode and re-encode
+  failed        an operation on the object FAILED earlier: (a) len()/pack() while one member (own public
+                field, field of an owned object, list element) held a value that cannot be encoded yet
+                (None / an integer wider than any field / an object whose pack() raises) - the value is
+                put back (optionally another field is then given another value) and the object must
+                encode like a fresh one, len() agree, the decoded bytes == it, and another object of
+                the same value must not be affected; (b) unpack() of a truncated encoding, then of the
+                complete one; (c) pack() rejected at the 64 KiB limit, object shrunk in place to the size
+                that fits.  Exceptions in the operation that FOLLOWS the failed one are keyed
+                raises:<site>:after-failed-pack / after-failed-unpack / after-rejected-pack.  When
+                pack() accepts the value (None is legal for some fields) the history is an in-place
+                edit of a member between two encodings: edited:<kind>:pack-after-member-edit
 Secondary forms (data=<packet_in>, data=<packet object>, data/body=<object with pack()>, raw-bytes
 addresses, action= synonyms) are kinds of their own ("<class>/<form>") checked against the same layout
 tables; the dispatch clauses are also run with the decoder table of_01 has after the Nicira component
@@ -642,7 +653,9 @@ def run_case (P, K, v, state=True):
   try:
     V.calls += 1; b = obj.pack()
   except Exception as e:
-    if over: V.note = 'rejected:' + type(e).__name__
+    if over:
+      V.note = 'rejected:' + type(e).__name__
+      if state and isinstance(v.get('<fits>'), dict): rejected_pack_phase(P, K, v, obj, V)
     else: raised("pack()", e)
     return V
   if over:
@@ -698,6 +711,7 @@ def run_case (P, K, v, state=True):
   want = K.cls(P)
   ov = None
   seen = set()
+  dec = None                  # the object decoded from the bytes alone through the first strict entry point
   def dfail (clause, suffix, text):
     # a clause that already failed through an earlier entry point is the same defect
     if clause in seen: return
@@ -744,6 +758,7 @@ def run_case (P, K, v, state=True):
         i = next((j for j in range(min(len(b), len(b2))) if b[j] != b2[j]), min(len(b), len(b2)))
         dfail("reencode", "reencode:%s:%s" % (own, label), "%s: re-encoding the object decoded via %s%s differs from the original bytes at offset %d"
                % (K.name, label, emb, i)); break
+      if dec is None and strict and off == 0 and len(raw) == n: dec = o2
   if state and not V.fails:
     # every encoding of the object is its encoding, not only the first
     try:
@@ -755,6 +770,10 @@ def run_case (P, K, v, state=True):
       V.fail("reused:%s:pack-twice" % (layout_owner(K, d[0])[0] if d else own),
              "%s: a second pack() of the same object returned %d bytes (len() %d), the first %d bytes%s"
              % (K.name, len(b3), l3, len(whole), (", field %s differs" % d[0]) if d else "")); return V
+  if state and not V.fails:
+    failed_pack_phase(P, K, v, obj, b, whole, exp, flags, V, raised, dec, int(state))
+  if state and not V.fails and not K.opts.get('noreuse'):
+    failed_unpack_phase(P, K, v, obj, b, flags, V, raised, int(state))
   if state and not V.fails and not K.opts.get('noreuse'):
     state_phases(P, K, v, obj, b, exp, flags, V, raised, ov, int(state))
   return V
@@ -1118,6 +1137,318 @@ def state_phases (P, K, v, obj, b, exp, flags, V, raised, ov=None, state=1):
       V.fail("reused:%s:equal-after-unpack" % own, "%s: the case's object, after unpack() of the reference encoding, is not == the reference object" % K.name); return
   except Exception as e:
     raised("unpack()/pack()/== of the reference encoding on the case's object", e); return
+
+
+# ---------------------------------------------------------------------------------------
+# objects with a FAILED operation in their history
+#   failed pack     a member of the object (one of its own public fields, a field of something it
+#                   owns, an element of one of its lists) holds a value that cannot be encoded yet
+#                   (None - the library's own "unset", e.g. ofp_action_output().port -, an integer
+#                   wider than any field, an object whose pack() raises); len()/pack() are
+#                   attempted (they raise part-way, or the value is accepted); the caller puts the
+#                   old value back -> from here on it is an ordinary fully specified object: pack()
+#                   must give the bytes of a fresh object, len() agree, the decoded object == it
+#   failed unpack   an object unpack()s a truncated encoding (raises part-way), then the complete
+#                   one: must consume it, == a fresh object, re-encode to the same bytes
+#   rejected pack   pack() of an object over the 64 KiB limit was rejected; the caller shrinks it
+#                   in place to the size that fits: must encode like a fresh object of that size
+#   What the failing call itself raises or returns is not the codec's business here.
+# ---------------------------------------------------------------------------------------
+class Unencodable (object):
+  """a member that cannot be encoded yet"""
+  def pack (self): raise ValueError("this member cannot be encoded yet")
+  def __len__ (self): return 8
+
+POISONS = ('None', '2**70', 'unencodable-object')
+PRIORS = ('fresh', 'encoded')
+
+def poison_value (name):
+  return None if name == 'None' else (1 << 70) if name == '2**70' else Unencodable()
+
+def fail_sites (P, x):
+  """[(index into owned(P, x), attribute, list index | None)]: every public field of the object
+  and of everything it owns, and the first three elements of every list among them"""
+  out = []
+  for yi, y in enumerate(owned(P, x)):
+    if isinstance(y, P.of.ofp_match):
+      names = list(S.MATCH_FIELDS) + ['wildcards']
+    elif isinstance(y, (P.nx.nxm_entry, P.nx.nx_match)):
+      continue                # these encode a value when it is assigned, not in pack()
+    else:
+      names = sorted(k for k in vars(y) if not k.startswith('_'))
+      for p in _VIEW_PROPS:
+        pr = getattr(type(y), p, None)
+        if isinstance(pr, property) and pr.fset is not None and p not in names: names.append(p)
+    for k in names:
+      out.append((yi, k, None))
+      try: val = getattr(y, k)
+      except Exception: continue
+      if isinstance(val, list):
+        out.extend((yi, k, i) for i in range(min(len(val), 3)))
+  return out
+
+def site_get (P, y, k, i):
+  if isinstance(y, P.of.ofp_match) and k in ('nw_src', 'nw_dst'):
+    ip, bits = getattr(y, 'get_' + k)()
+    return None if ip is None else (ip, bits)
+  old = getattr(y, k)
+  return old[i] if i is not None else old
+
+def site_set (y, k, i, val):
+  if i is None: setattr(y, k, val)
+  else: getattr(y, k)[i] = val
+
+def raised_after (P, K, V, tag, phase, e):
+  """an exception in an operation that follows a failed one: a key of its own per function"""
+  site, inpox = exc_site(P, e)
+  if not inpox: raise e
+  if site.endswith('@'): site += K.opts.get('owner', K.name.split('/')[0])
+  V.fail("raises:%s:%s" % (site, tag), "%s of %s raised %s: %s" % (phase, K.name, type(e).__name__, str(e)[:120]))
+
+# fields that pack() is documented to normalise / infer from another field ("May normalize fields"):
+# the caller who specifies the one specifies the other with it
+COMPANIONS = {('ofp_action_output', 'port'): ('max_len',), ('nx_reg_load', 'offset'): ('nbits',), ('nx_reg_load', 'dst'): ('nbits',)}
+
+def failed_pack_phase (P, K, v, obj, b, whole, exp, flags, V, raised, dec, state):
+  """Sites = fail_sites() of the case's object.  The kind's reference vector: every site x every
+  unencodable value x {never encoded, encoded once before}; then, for every field of the kind, the
+  same history followed by the assignment of another value to THAT field (failing site rotating over
+  the sites that made pack() raise): must encode like a fresh object with that value.  Every other
+  case: one site (thorough: three, evenly spread) chosen by a checksum of the vector, the unencodable
+  values tried in order up to the first that makes pack() raise, prior state by checksum (thorough:
+  both).  A value that pack() ACCEPTS (None is a legal value of some fields) makes the history an
+  in-place edit of a member between two encodings: same demand, clause `edited`."""
+  own = K.opts.get('owner', K.name.split('/')[0])
+  try:
+    sites = fail_sites(P, K.build(P, v)[0]); V.calls += 1
+  except Exception:
+    return
+  if not sites: return
+  crc = zlib.crc32(repr(v).encode())
+  ref = ref_of(P, K)
+  full = ref is not None and ref[0] == v
+  # what the object must be like in the end: (bytes of the message itself, total length, an equal
+  # object to compare with | None, flags, expected layout | None)
+  T0 = (b, len(whole), dec, flags, exp)
+  views = {}
+  def attempt (site, pname, prior, bystander, change=None, T=T0):
+    """-> 'raised' | 'accepted' | 'skip' | None (a clause failed)"""
+    yi, k, i = site
+    tb, tlen, tobj, tflags, texp = T
+    n = len(tb)
+    try:
+      x = K.build(P, v)[0]; V.calls += 1
+      ys = owned(P, x)
+      if prior == 'encoded': x.pack(); V.calls += 1
+      y = ys[yi]
+      old = site_get(P, y, k, i)
+      also = [(k2, getattr(y, k2)) for k2 in COMPANIONS.get((type(y).__name__, k), ())]
+    except Exception:
+      return 'skip'
+    try:
+      site_set(y, k, i, poison_value(pname))
+    except Exception:
+      return 'skip'           # the library refuses the value when it is assigned: nothing to attempt
+    what = "%s.%s%s = %s on a%s object" % (type(y).__name__, k, '' if i is None else '[%d]' % i, pname,
+                                           'n already encoded' if prior == 'encoded' else ' fresh')
+    failed = False
+    V.calls += 2
+    try: len(x)
+    except Exception: pass
+    try: x.pack()
+    except Exception: failed = True
+    if failed: clause, o0, tag = 'failed', own, 'after-failed-pack'
+    else: clause, o0, tag = 'edited', K.name.split('/')[0], 'after-member-edit'
+    hist = "%s, pack() attempted and %s, old value put back" % (what, "raised" if failed else "accepted it")
+    if failed and bystander:
+      try:
+        V.calls += 1; bo = obj.pack()
+      except Exception as e:
+        raised_after(P, K, V, 'other-object-' + tag, "pack() of ANOTHER object after a pack() attempt on an object of the same class failed (%s)" % what, e); return None
+      if bo[:len(b)] != b or len(bo) != len(whole):
+        V.fail("failed:%s:other-object" % own, "%s: after a failed pack() attempt on one object (%s) ANOTHER, untouched object of the same value encodes differently"
+               % (K.name, what)); return None
+    try:
+      site_set(y, k, i, old)
+      for k2, o2 in also: setattr(y, k2, o2)
+      if change is not None:
+        setattr(x, change[0], change[1])
+        for k2, o2 in change[2]: setattr(x, k2, o2)
+        hist += ", then %s assigned another value" % change[0]
+    except Exception:
+      return 'skip'
+    try:
+      V.calls += 2; bx = x.pack(); lx = len(x)
+    except Exception as e:
+      raised_after(P, K, V, tag, "pack()/len() of a fully specified object with this history: %s;" % hist, e); return None
+    if bx[:n] != tb or len(bx) != tlen:
+      o, f = o0, '?'
+      if texp is not None:
+        d = layout_diff(texp, bx[:n], tflags.get('dont_care', 0))
+        if d is not None: o, f = (layout_owner(K, d[0])[0] if failed else o0), d[0]
+      V.fail("%s:%s:pack-%s" % (clause, o, tag), "%s: %s; now it encodes to %d bytes that are not the %d bytes of a fresh object with the same value (field %s)"
+             % (K.name, hist, len(bx), tlen, f)); return None
+    if lx != n:
+      V.fail("%s:%s:len-%s" % (clause, o0, tag), "%s: %s; now len() is %d for %d bytes" % (K.name, hist, lx, n)); return None
+    if tobj is not None and tflags.get('eq', True) and K.opts.get('eq', True):
+      try:
+        V.calls += 1
+        same = (not tflags.get('libeq', True)) or ((tobj == x) and not (tobj != x))
+        vd = None
+        if tflags.get('view', True):
+          if tobj is dec:
+            if not views: views['dec'] = view(P, dec)
+            vd = view_diff(views['dec'], view(P, x))
+          else:
+            vd = view_diff(view(P, tobj), view(P, x))
+      except Exception as e:
+        raised_after(P, K, V, tag, "== between an object with this history: %s; and the object decoded from its bytes / a fresh one" % hist, e); return None
+      if not same or vd:
+        V.fail("%s:%s:equal-%s" % (clause, o0, tag), "%s: %s; the object decoded from its bytes (or a fresh object of that value) is not == it (first differing public field: %s)"
+               % (K.name, hist, vd)); return None
+    return 'raised' if failed else 'accepted'
+  if not full:
+    k = 1 if state < 2 else 3
+    picks = sorted(set((crc + j * max(1, len(sites) // k)) % len(sites) for j in range(k)))
+    priors = PRIORS if state >= 2 else (PRIORS[(crc >> 9) & 1],)
+    for si in picks:
+      for prior in priors:
+        for pname in POISONS:
+          r = attempt(sites[si], pname, prior, True)
+          if r is None: return
+          if r == 'raised': break
+    return
+  raising = []
+  for site in sites:
+    first = True
+    for pname in POISONS:
+      for prior in PRIORS:
+        r = attempt(site, pname, prior, first)
+        if r is None: return
+        if r == 'raised':
+          if first: raising.append((site, pname))
+          first = False
+  if not raising or flags.get('tail') is not None: return
+  # ... the failed attempt, the repair, and then ANOTHER field is given another value
+  for fi, (f, t) in enumerate(K.fields):
+    if f in K.fixed: continue
+    alt = next((a for a in dom(t, fi)[1] if a != v[f]), None)
+    if alt is None and not (isinstance(t, tuple) and None in t[2]): continue
+    try:
+      V.calls += 2
+      t2 = K.build(P, dict(v, **{f: alt})); y2 = t2[0]
+      fl2 = t2[2] if len(t2) > 2 else {}
+      if fl2.get('tail') is not None: continue
+      new = getattr(y2, f)
+      comp = [(k2, getattr(y2, k2)) for k2 in COMPANIONS.get((type(y2).__name__, f), ())]
+      by = y2.pack()
+      if isinstance(new, (list, P.of.ofp_base, P.nx.nx_match)): new = K.build(P, dict(v, **{f: alt}))[0].__getattribute__(f)   # not shared with y2
+      if f not in vars(y2) and not isinstance(getattr(type(y2), f, None), property): continue
+    except Exception:
+      continue
+    e2 = None
+    if t2[1] is not None:
+      try: e2 = t2[1]()
+      except Exception: e2 = None
+    cands = [(s_, p_) for s_, p_ in raising if not (s_[0] == 0 and s_[1] == f)] or raising
+    for prior in PRIORS:
+      site, pname = cands[(fi + (prior == 'encoded')) % len(cands)]
+      if attempt(site, pname, prior, False, (f, new, comp), (by, len(by), y2, fl2, e2)) is None: return
+
+
+def unpack_cuts (n, full, crc, state):
+  """lengths of the truncated encodings handed to the first unpack()"""
+  if n <= 0: return []
+  if full:
+    if n <= 160: return list(range(n))
+    return sorted(set(range(64)) | set(range(0, n, 8)) | set(range(n - 32, n)))
+  cuts = set((crc % n, n - 1 - ((crc >> 8) % min(n, 8))))
+  if state >= 2: cuts |= set((min(8, n - 1), n // 2, n - 1, (crc >> 4) % n, 0))
+  return sorted(cuts)
+
+def failed_unpack_phase (P, K, v, obj, b, flags, V, raised, state):
+  """An object that holds the kind's reference value unpack()s the first k bytes of this case's
+  encoding (which raises part-way or returns), then the complete encoding.  The kind's reference
+  vector: every k < n (encodings over 160 bytes: every k < 64, every 8th, the last 32) x {never
+  encoded, encoded once before}; every other case: two k by checksum (thorough: up to seven), prior
+  state by checksum (thorough: both)."""
+  if K.cat in ('nxm', 'wire'): return
+  own = K.opts.get('owner', K.name.split('/')[0])
+  ref = ref_of(P, K)
+  if ref is None: return
+  rv = ref[0]
+  n = len(b)
+  crc = zlib.crc32(repr(v).encode())
+  full = rv == v
+  strict_eq = flags.get('eq', True) and K.opts.get('eq', True)
+  priors = PRIORS if (full or state >= 2) else (PRIORS[(crc >> 10) & 1],)
+  ov = None
+  for k in unpack_cuts(n, full, crc, state):
+    for prior in priors:
+      try:
+        xa = K.build(P, rv)[0]; V.calls += 1
+        if prior == 'encoded': xa.pack(); V.calls += 1
+      except Exception:
+        return
+      V.calls += 1
+      try: unpack_into(K, xa, b[:k]); first = "returned"
+      except Exception: first = "raised"
+      hist = "a%s object unpack()ed the first %d of these %d bytes (which %s), then all of them" % (
+        'n already encoded' if prior == 'encoded' else ' fresh', k, n, first)
+      try:
+        V.calls += 1; used = unpack_into(K, xa, b)
+      except Exception as e:
+        raised_after(P, K, V, 'after-failed-unpack', "unpack() of a complete encoding into an object whose unpack() of the first %d of its %d bytes %s" % (k, n, first), e); return
+      if used != n:
+        V.fail("failed:%s:consumed-after-failed-unpack" % own, "%s: %s: consumed %s bytes" % (K.name, hist, used)); return
+      try:
+        V.calls += 3
+        if strict_eq:
+          if flags.get('libeq', True) and not (xa == obj):
+            if ov is None: ov = view(P, obj)
+            V.fail("failed:%s:equal-after-failed-unpack" % own, "%s: %s: it is not == a fresh object (first differing public field: %s)"
+                   % (K.name, hist, view_diff(ov, view(P, xa)))); return
+          if flags.get('view', True):
+            if ov is None: ov = view(P, obj)
+            vd = view_diff(ov, view(P, xa))
+            if vd:
+              V.fail("failed:%s:equal-after-failed-unpack" % own, "%s: %s: it differs from a fresh object in public field %s" % (K.name, hist, vd)); return
+        ba = xa.pack(); la = len(xa)
+      except Exception as e:
+        raised_after(P, K, V, 'after-failed-unpack', "==/pack()/len() after %s;" % hist, e); return
+      if ba != b and flags.get('reencode', True):
+        V.fail("failed:%s:pack-after-failed-unpack" % own, "%s: %s: it encodes other bytes" % (K.name, hist)); return
+      if la != n:
+        V.fail("failed:%s:len-after-failed-unpack" % own, "%s: %s: len() is %d" % (K.name, hist, la)); return
+
+
+def rejected_pack_phase (P, K, v, obj, V):
+  """obj does not fit its 16-bit length field and its pack() was rejected.  The caller shrinks it to
+  the neighbouring size that fits (lists cut IN PLACE, byte strings re-assigned): it must encode
+  exactly like a fresh object of that size."""
+  own = K.opts.get('owner', K.name.split('/')[0])
+  try:
+    fo = K.build(P, v['<fits>'])[0]; fb = fo.pack(); V.calls += 2
+  except Exception:
+    return
+  try:
+    names = [k for k in vars(fo) if not k.startswith('_')]
+    for p in _VIEW_PROPS:
+      pr = getattr(type(fo), p, None)
+      if isinstance(pr, property) and pr.fset is not None and p not in names: names.append(p)
+    for k in names:
+      new, cur = getattr(fo, k), getattr(obj, k)
+      if isinstance(cur, list) and isinstance(new, list) and len(new) <= len(cur): del cur[len(new):]
+      else: setattr(obj, k, new)
+    V.calls += 2
+    bo = obj.pack(); lo = len(obj)
+  except Exception as e:
+    raised_after(P, K, V, 'after-rejected-pack', "shrinking an object whose pack() was rejected for its size to the size that fits, then pack()/len()", e); return
+  if bo != fb:
+    V.fail("failed:%s:pack-after-rejected-pack" % own, "%s: pack() was rejected (over 64 KiB), the object was shrunk in place to the size that fits: it encodes to %d bytes, a fresh object of that size to %d%s"
+           % (K.name, len(bo), len(fb), "" if len(bo) != len(fb) else ", first difference at offset %d" % next((j for j in range(len(fb)) if bo[j] != fb[j]), -1))); return
+  if lo != len(fb):
+    V.fail("failed:%s:len-after-rejected-pack" % own, "%s: after the rejected pack() and the shrink len() is %d for %d bytes" % (K.name, lo, len(fb)))
 
 
 # ---------------------------------------------------------------------------------------
@@ -2381,6 +2712,10 @@ def limit_cases ():
   big = ['ofp_flow_stats', K['ofp_flow_stats'].basev(actions=rep_of(aout, 4000))]
   for n in (2, 3):
     out.append(('ofp_stats_reply/ofp_flow_stats', K['ofp_stats_reply/ofp_flow_stats'].basev(body=['list', [big] * n])))
+  # the rejected vector carries its fitting neighbour: what the caller shrinks the rejected object to
+  for i in range(0, len(out), 2):
+    assert out[i][0] == out[i + 1][0]
+    out[i + 1] = (out[i + 1][0], dict(out[i + 1][1], **{'<fits>': out[i][1]}))
   return out
 
 def queue_shapes ():
@@ -2600,14 +2935,36 @@ def run (cfg):
               "also handed the encoding as the LAST thing in the buffer at a non-zero offset (behind 8 bytes; kinds "
               "with variable-length members one more prefix by checksum; thorough every prefix), the receive loops "
               "also with the message FIRST in front of another message and in the MIDDLE of three. (14) every object "
-              "is encoded a second time: same bytes, same len()"
+              "is encoded a second time: same bytes, same len(). (15) FAILED OPERATIONS in the object's history. "
+              "Failure sites of an object = every public field of the object and of every codec object it owns (match, "
+              "actions, ports, queues, properties, bodies, carried packet_in) and the first 3 elements of every list among "
+              "them; unencodable values = {None (the library's own 'unset', e.g. ofp_action_output().port), 2**70, an "
+              "object whose pack() raises}; prior state = {never encoded, encoded once}. For every kind's reference "
+              "vector: every site x every value x both prior states: the value is assigned, len() and pack() are "
+              "attempted (raise part-way or accept the value), ANOTHER object of the same value is encoded (must be "
+              "unaffected), the old value is put back, then pack()/len() must give exactly the fresh object's bytes and "
+              "the object decoded from them must == it with equal public fields; and for every field of the kind the "
+              "same history followed by the assignment of another domain value to that field (failing site rotating "
+              "over the sites that raised, both prior states): must equal a fresh object with that value. Every other "
+              "case (every case of every sweep, incl. the secondary forms): one site by checksum of the vector "
+              "(thorough: three), values in the order above up to the first that makes pack() raise, prior state by "
+              "checksum (thorough: both). FAILED UNPACK: an object holding the kind's reference value unpack()s the "
+              "first k bytes of the case's n-byte encoding, then all n: must consume n, == a fresh object, re-encode to "
+              "the same bytes, len() agree; reference vector: every k < n (n > 160: k < 64, every 8th, the last 32) x "
+              "both prior states; other cases two k by checksum (thorough: up to seven, both prior states). REJECTED "
+              "PACK: each object beyond a 64 KiB limit whose pack() was rejected is shrunk in place (list cut / bytes "
+              "re-assigned) to its neighbour that fits and must encode like a fresh object of that size"
               % (len(KINDS), len([k for k in KINDS if k.startswith('nx')]),
                  "2" if cfg.quick else "3", 3 if thorough else 2, 3 if thorough else 2))
   rep.bound = dict(deviations=2 if cfg.quick else 3, payload="0..1500", action_seq_len=3 if thorough else 2,
                    list_shapes="0..3", match_deviations=3 if thorough else 2,
                    packet_in_forms="full product (1440 per carrier)%s" % ("" if cfg.quick else " x 1 deviation of the carrier's own fields"),
                    decoder_table_states="as imported; after nicira._init_unpacker()",
-                   buffer_positions="alone / behind / in front / between; embedded with trailing bytes / last in buffer")
+                   buffer_positions="alone / behind / in front / between; embedded with trailing bytes / last in buffer",
+                   failed_operations="reference vector of each kind: all failure sites x 3 unencodable values x 2 prior states, "
+                                     "+ every field changed after the failure; all truncation points; other cases: %s"
+                                     % ("1 site, 2 truncation points, 1 prior state by checksum" if cfg.quick else
+                                        "3 sites, <= 7 truncation points, both prior states"))
   rep.extra['sweep_sizes'] = sizes
   rep.assumptions = [
     "ofp_match objects are prerequisite-consistent (fields whose prerequisite is absent are documented as ignored); a wildcarded field is sent as zero; nw prefix counts >= 32 are one value; in a flow-mod the wildcard bits of non-applicable fields carry no meaning",
@@ -2620,6 +2977,7 @@ def run (cfg):
     "a flow_mod / packet_out built from a packet_in has no buffer_id of its own set (which of the two wins is not specified); re-sending a truncated unbuffered packet_in through ofp_packet_out is refused by the library (assert) and out of scope; a flow_mod given a truncated unbuffered packet_in is sent alone (the library logs that it cannot include the data)",
     "for ofp_flow_mod(data=<unbuffered complete packet_in>) the documented composite is required to be flow_mod + barrier request + unbuffered packet_out with the packet_in's in_port and data; the packet_out's actions and the xids of the two extra messages are the library's choice; len() is that of the flow_mod",
     "an object decoded from bytes cannot carry a caller's packet_in / body object: for data=<packet_in> on a flow_mod and data/body=<object with pack()> the decoded object is required to re-encode to the same bytes, not to be == the original",
+    "failed operations: what the failing len()/pack()/unpack() itself raises or returns is not judged, only the object's behaviour afterwards; a value the library refuses at assignment is no site; fields that pack() is documented to normalise or infer from another field (ofp_action_output.max_len from port, nx_reg_load.nbits from offset/dst) are re-specified together with that field",
     "initialising the Nicira component is represented by running the real nicira._init_unpacker() on of_01.unpackers (what nicira.launch() does to the decoder table) and using the resulting table; the process-wide table is put back afterwards",
   ]
   return rep
